@@ -355,7 +355,9 @@ func fnPath(seed uint64, n int) {
 	root, _ = filepath.EvalSymlinks(root)
 	defer os.RemoveAll(root)
 	repo := filepath.Join(root, "proj")
-	for _, d := range []string{"proj/.ergo", "proj/d", "proj/sub/deep", "proj/nested/.ergo", "proj/nested/x", "proj/sub/inner/.ergo", "proj/sub/inner/y", "proj/a b", "proj/filergo", "other"} {
+	for _, d := range []string{"proj/.ergo", "proj/d", "proj/sub/deep", "proj/nested/.ergo", "proj/nested/x", "proj/sub/inner/.ergo", "proj/sub/inner/y", "proj/a b", "proj/filergo", "other",
+		// directories whose *names* end in ".ergo": a project checked out as team.ergo (with its own store), a plain directory notes.ergo
+		"proj/team.ergo/.ergo", "proj/team.ergo/src", "proj/notes.ergo/z"} {
 		os.MkdirAll(filepath.Join(root, d), 0755)
 	}
 	for _, f := range []string{"proj/a", "proj/d/f", "proj/.ergox", "proj/..x", "proj/x..", "proj/é", "proj/...", "proj/ ", "proj/filergo/.ergo", "proj/.ergo/plans.jsonl", "other/secret"} {
@@ -390,8 +392,10 @@ func fnPath(seed uint64, n int) {
 		ans := J{"clean": filepath.Clean(p), "dir": filepath.Dir(p), "base": filepath.Base(p), "abs": filepath.IsAbs(p),
 			"join": filepath.Join(repo, p), "validate": v, "file_url": ergo.VerifDeriveFileURL(p, repo)}
 		// discovery walk from a start spelled relative to a cwd inside the tree
-		cwd := pick(r, []string{repo, filepath.Join(repo, "sub"), filepath.Join(repo, "sub/deep"), filepath.Join(repo, "nested/x"), root, filepath.Join(repo, ".ergo"), filepath.Join(repo, "filergo")})
-		start := pick(r, []string{".", "..", "../..", "sub", "sub/deep", ".ergo", "./.ergo/", cwd, cwd + "/", filepath.Join(repo, "sub/deep"), filepath.Join(repo, ".ergo"),
+		cwd := pick(r, []string{repo, filepath.Join(repo, "sub"), filepath.Join(repo, "sub/deep"), filepath.Join(repo, "nested/x"), root, filepath.Join(repo, ".ergo"), filepath.Join(repo, "filergo"),
+			filepath.Join(repo, "team.ergo"), filepath.Join(repo, "team.ergo/src"), filepath.Join(repo, "notes.ergo")})
+		start := pick(r, []string{".", "..", "../..", "sub", "sub/deep", ".ergo", "./.ergo/", cwd, cwd + "/", "team.ergo", "team.ergo/", "team.ergo/src", "notes.ergo", "notes.ergo/z",
+			filepath.Join(repo, "team.ergo"), filepath.Join(repo, "team.ergo/.ergo"), filepath.Join(repo, "notes.ergo"), filepath.Join(repo, "sub/deep"), filepath.Join(repo, ".ergo"),
 			filepath.Join(repo, "nested/x"), "nested", "nested/.ergo", "nosuch", filepath.Join(root, "other"), "filergo", p,
 			// absolute spellings that are not clean: the walk has to start from the directory they *name*
 			repo + "/sub/inner/..", repo + "/sub/inner/../", repo + "/sub/inner/y/../..", repo + "/sub/inner/./..", repo + "//sub//inner/../deep", cwd + "/..", cwd + "/../.", cwd + "/./",
